@@ -16,9 +16,13 @@ import (
 	"fmt"
 	"io"
 	"os"
+	"regexp"
+	"runtime"
 	"sort"
+	"strings"
 	"sync"
 	"sync/atomic"
+	"syscall"
 	"testing"
 	"testing/synctest"
 	"time"
@@ -947,36 +951,110 @@ func (w *world) injectReadFault(f int) {
 
 // Watchdog. A call that spins inside the real code (or blocks on a mutex)
 // never lets the bubble become quiescent, and cannot be interrupted. A
-// goroutine outside the bubble (real time) notices that nothing was logged
-// and no step finished for a long time, appends a "hang" event, flushes
-// the trace and ends the process with exit code 3; the check then lets
-// the trace specification decide what the hang means.
+// goroutine outside the bubble watches the progress counter. Real
+// (wall-clock) time decides nothing about the real code: on a busy machine
+// a healthy run may make no progress for minutes. A "hang" event is logged
+// only on a fact that does not depend on how fast the machine is:
+//
+//   - spin: since the last progress this process has CONSUMED more than
+//     VERIF_C16_HANG_CPU_SECS seconds of CPU time (a step costs
+//     milliseconds of CPU; a starved process does not accumulate CPU
+//     time, a spinning call does), or
+//   - lock: in several consecutive goroutine dumps no goroutine but the
+//     watchdog is running, runnable or in a system call, and at least one
+//     is waiting for a sync.Mutex/RWMutex: nobody is left who could ever
+//     release it.
+//
+// The trace is then flushed and the process ends with exit code 3; the
+// trace specification decides what the hang means. If neither fact holds
+// but nothing happened for VERIF_C16_STALL_SECS seconds of real time, the
+// process ends with exit code 4 WITHOUT a hang event: the check reports
+// an infrastructure failure (exit 2), never a violation.
 var progress atomic.Int64
 
-const hangExitCode = 3
+const (
+	hangExitCode  = 3
+	stallExitCode = 4
+)
+
+func cpuSeconds() float64 {
+	var ru syscall.Rusage
+	if err := syscall.Getrusage(syscall.RUSAGE_SELF, &ru); err != nil {
+		return 0
+	}
+	tv := func(t syscall.Timeval) float64 { return float64(t.Sec) + float64(t.Usec)/1e6 }
+	return tv(ru.Utime) + tv(ru.Stime)
+}
+
+var goroutineHeader = regexp.MustCompile(`(?m)^goroutine \d+ \[([^\]]*)\]:`)
+
+// lockedForGood: no goroutine other than the caller can run, and one of
+// them waits for a mutex.
+func lockedForGood() bool {
+	buf := make([]byte, 4<<20)
+	buf = buf[:runtime.Stack(buf, true)]
+	hs := goroutineHeader.FindAllSubmatch(buf, -1)
+	if len(hs) < 2 {
+		return false
+	}
+	waiter := false
+	for _, h := range hs[1:] { // the first goroutine of the dump is the caller
+		state := strings.TrimSpace(strings.SplitN(string(h[1]), ",", 2)[0])
+		switch {
+		case state == "running" || state == "runnable" || state == "syscall" || state == "sleep" || state == "IO wait":
+			return false // somebody can still act (or will, in real time)
+		case strings.HasPrefix(state, "sync.Mutex.Lock") || strings.HasPrefix(state, "sync.RWMutex."):
+			waiter = true
+		}
+	}
+	return waiter
+}
 
 func startWatchdog(tr *common.Trace) (stop func()) {
-	limit := time.Duration(common.EnvInt("VERIF_C16_HANG_SECS", 240)) * time.Second
+	cpuLimit := float64(common.EnvInt("VERIF_C16_HANG_CPU_SECS", 30))
+	stallLimit := time.Duration(common.EnvInt("VERIF_C16_STALL_SECS", 1500)) * time.Second
+	const lockSamplesNeeded = 5
 	done := make(chan struct{})
 	go func() {
 		last := progress.Load()
-		lastChange := time.Now()
+		lastChange, lastCPU := time.Now(), cpuSeconds()
+		lockSamples := 0
 		tick := time.NewTicker(time.Second)
 		defer tick.Stop()
+		hang := func(why string) {
+			if tr != nil {
+				tr.Emit(common.Ev{"ev": "hang", "why": why, "cl": []int{0, 0}, "uac": 0})
+				tr.Close()
+			}
+			fmt.Fprintln(os.Stderr, "verif: the step did not become quiescent ("+why+"); see the hang event")
+			os.Exit(hangExitCode)
+		}
 		for {
 			select {
 			case <-done:
 				return
 			case <-tick.C:
 				if cur := progress.Load(); cur != last {
-					last, lastChange = cur, time.Now()
-				} else if time.Since(lastChange) > limit {
+					last, lastChange, lastCPU, lockSamples = cur, time.Now(), cpuSeconds(), 0
+					continue
+				}
+				if cpuSeconds()-lastCPU > cpuLimit {
+					hang("spin")
+				}
+				if lockedForGood() {
+					if lockSamples++; lockSamples >= lockSamplesNeeded && progress.Load() == last {
+						hang("lock")
+					}
+				} else {
+					lockSamples = 0
+				}
+				if time.Since(lastChange) > stallLimit {
+					// Real time alone: not a fact about the real code.
 					if tr != nil {
-						tr.Emit(common.Ev{"ev": "hang", "secs": int(limit / time.Second), "cl": []int{0, 0}, "uac": 0})
 						tr.Close()
 					}
-					fmt.Fprintln(os.Stderr, "verif: the step did not become quiescent; see the hang event")
-					os.Exit(hangExitCode)
+					fmt.Fprintln(os.Stderr, "verif: no progress for a long (real) time, but the process neither burns CPU nor is deadlocked on a lock: infrastructure")
+					os.Exit(stallExitCode)
 				}
 			}
 		}
